@@ -33,14 +33,27 @@ def verify(sid):
     assert rc == 0, o
     sh("git apply %s/patch.diff" % out, wt)
     res = {}
+    # the demo test lives untracked in the worktree: hide it while the repository's own suite runs
+    rc, o = sh("git ls-files --others --exclude-standard", wt)
+    untracked = [l for l in o.splitlines() if l.strip() and not l.startswith("target")]
+    hidden = []
+    for u in untracked:
+        dst = os.path.join(out, "hidden_" + u.replace("/", "__"))
+        shutil.move(os.path.join(wt, u), dst)
+        hidden.append((os.path.join(wt, u), dst))
     try:
         rc, o = sh(NEXTEST, wt, env)
         tail = [l for l in o.splitlines() if "Summary" in l]
         res["suite_with_change"] = tail[-1].strip() if tail else o[-300:]
         suite_ok = rc == 0 and "138 passed" in (tail[-1] if tail else "")
+        for a, b in hidden:
+            shutil.move(b, a)
+        hidden = []
         rc, o = sh(demo_cmd, wt, env)
         res["demo_with_change_rc"] = rc
     finally:
+        for a, b in hidden:
+            shutil.move(b, a)
         sh("git checkout -- .", wt)
     rc2, o2 = sh(demo_cmd, wt, env)
     res["demo_without_change_rc"] = rc2
